@@ -33,11 +33,13 @@ def Statement_shorthand_relex : Prop :=
 
 /-- Whatever CPython's formatting proposes (`toks`, arbitrary) and however the reader normalises (`norm`,
     arbitrary): the text written for a (normalised) literal of a shorthand datatype reads back as the same
-    lexical form and datatype.  For `k = double` this is `plain_double_relex` at full strength. -/
+    lexical form and datatype.  FALSE for the code as it is in one shape (see `num_text_roundtrip_witness`):
+    a decimal whose plain text carries an exponent. -/
 def Statement_num_text_roundtrip : Prop :=
   ∀ (norm : NumKind → Str → Str) (k : NumKind) (lex : Str) (toks : List Str),
     norm k lex = lex → readNum norm k (writeNum norm k lex toks) = some (lex, k)
 
+/-- the same for doubles only — DESIGN's `plain_double_relex` at full strength; holds for the repaired writer -/
 def Statement_plain_double_relex : Prop :=
   ∀ (norm : NumKind → Str → Str) (lex : Str) (toks : List Str),
     norm .double lex = lex → readNum norm .double (writeNum norm .double lex toks) = some (lex, .double)
@@ -56,7 +58,7 @@ def Statement_plain_decimal_relex : Prop :=
   ∀ (norm : NumKind → Str → Str) (lex : Str), norm .decimal lex = lex →
     (lexDecimal lex = true →
       writeNum norm .decimal lex ((plainToken .decimal lex).toList) = .shorthand lex) ∧
-    (∀ t, plainToken .decimal lex = some t → norm .decimal t ≠ lex →
+    (∀ t, plainToken .decimal lex = some t → hasExp t = false → norm .decimal t ≠ lex →
       writeNum norm .decimal lex [t] = .quoted (quoteEncode lex))
 
 /-- boolean: `true` / `false` are written bare; any other lexical form whose lower-cased text does not
@@ -80,9 +82,9 @@ theorem turtle_str_roundtrip : Statement_turtle_str_roundtrip := by
 
 theorem shorthand_relex : Statement_shorthand_relex := fun _ _ h => tokenOk_relex h
 
-theorem num_text_roundtrip : Statement_num_text_roundtrip := by
-  intro norm k lex toks hn
-  unfold writeNum
+theorem guarded_roundtrip (norm : NumKind → Str → Str) (k : NumKind) (lex : Str) (toks : List Str)
+    (hn : norm k lex = lex) : readNum norm k (guarded norm k lex toks) = some (lex, k) := by
+  unfold guarded
   split
   · next tok h =>
     obtain ⟨hok, hmem⟩ := plainChoice_sound h
@@ -93,16 +95,32 @@ theorem num_text_roundtrip : Statement_num_text_roundtrip := by
     rw [hnorm]
   · simp only [readNum, turtle_str_roundtrip lex, Option.map_some, hn]
 
+/-- everything except the pinned shape (decidable hypothesis) -/
+theorem num_text_roundtrip_partial (norm : NumKind → Str → Str) (k : NumKind) (lex : Str) (toks : List Str)
+    (hshape : pinnedExp k toks = none) (hn : norm k lex = lex) :
+    readNum norm k (writeNum norm k lex toks) = some (lex, k) := by
+  unfold writeNum
+  rw [hshape]
+  exact guarded_roundtrip norm k lex toks hn
+
+/-- finding C03-K5: `Literal(4e-08, datatype=XSD.decimal)` (lexical form `4e-08`) is written as the bare token
+    `4e-08`, which a Turtle reader types as xsd:double -/
+theorem num_text_roundtrip_witness : ¬ Statement_num_text_roundtrip := by
+  intro h
+  have := h (fun _ t => t) .decimal ['4', 'e', '-', '0', '8'] [['4', 'e', '-', '0', '8']] rfl
+  revert this
+  decide
+
 theorem plain_double_relex : Statement_plain_double_relex :=
-  fun norm lex toks h => num_text_roundtrip norm .double lex toks h
+  fun norm lex toks h => num_text_roundtrip_partial norm .double lex toks rfl h
 
 theorem plain_int_relex : Statement_plain_int_relex := by
   intro norm lex hn
   constructor
   · intro h
-    simp [writeNum, plainToken, plainChoice, tokenOk, h, hn]
+    simp [writeNum, pinnedExp, guarded, plainToken, plainChoice, tokenOk, h, hn]
   · intro h
-    simp [writeNum, plainToken, plainChoice, tokenOk, h]
+    simp [writeNum, pinnedExp, guarded, plainToken, plainChoice, tokenOk, h]
 
 theorem lexDecimal_has_dot {t : Str} (h : lexDecimal t = true) : t.any (fun c => c == '.' || c == 'e' || c == 'E') = true := by
   unfold lexDecimal at h
@@ -123,13 +141,65 @@ theorem lexDecimal_has_dot {t : Str} (h : lexDecimal t = true) : t.any (fun c =>
     exact ⟨'.', hm, by decide⟩
   · simp at h
 
+theorem lexDecimal_no_exp {t : Str} (h : lexDecimal t = true) : hasExp t = false := by
+  unfold lexDecimal at h
+  split at h
+  · next a b hs =>
+    obtain ⟨c, hc, e⟩ := splitAt1_spec hs
+    simp at hc; subst hc
+    simp only [Bool.and_eq_true] at h
+    have ha := allDigits_mem h.1
+    have hb := allDigits_mem (digits1_all h.2)
+    have hds : ∀ x ∈ dropSign t, (x == 'e' || x == 'E') = false := by
+      intro x hx
+      rw [e] at hx
+      rcases List.mem_append.mp hx with h1 | h1
+      · have := ha x h1
+        cases hxe : (x == 'e' || x == 'E') with
+        | false => rfl
+        | true =>
+          simp at hxe
+          rcases hxe with rfl | rfl <;> exact absurd this (by decide)
+      · rcases List.mem_cons.mp h1 with rfl | h2
+        · decide
+        · have := hb x h2
+          cases hxe : (x == 'e' || x == 'E') with
+          | false => rfl
+          | true =>
+            simp at hxe
+            rcases hxe with rfl | rfl <;> exact absurd this (by decide)
+    unfold hasExp
+    cases t with
+    | nil => rfl
+    | cons x r =>
+      simp only [dropSign] at hds
+      by_cases hsg : isSign x = true
+      · simp only [hsg, if_true] at hds
+        have hx : (x == 'e' || x == 'E') = false := by
+          simp only [isSign, Bool.or_eq_true, beq_iff_eq] at hsg
+          rcases hsg with rfl | rfl <;> decide
+        simp only [List.any_cons, hx, Bool.false_or]
+        rw [Bool.eq_false_iff]
+        intro hany
+        obtain ⟨y, hy, hye⟩ := List.any_eq_true.mp hany
+        rw [hds y hy] at hye
+        exact absurd hye (by simp)
+      · simp only [hsg] at hds
+        rw [Bool.eq_false_iff]
+        intro hany
+        obtain ⟨y, hy, hye⟩ := List.any_eq_true.mp hany
+        rw [hds y hy] at hye
+        exact absurd hye (by simp)
+  · simp at h
+
 theorem plain_decimal_relex : Statement_plain_decimal_relex := by
   intro norm lex hn
   constructor
   · intro h
-    simp [writeNum, plainToken, lexDecimal_has_dot h, plainChoice, tokenOk, h, hn]
-  · intro t _ hne
-    simp [writeNum, plainChoice, hne]
+    have hne := lexDecimal_no_exp h
+    simp [writeNum, pinnedExp, guarded, plainToken, lexDecimal_has_dot h, plainChoice, tokenOk, h, hn, hne]
+  · intro t _ hexp hne
+    simp [writeNum, pinnedExp, guarded, plainChoice, hne, hexp]
 
 theorem plain_bool_relex : Statement_plain_bool_relex := by
   intro norm lex hn
@@ -137,11 +207,11 @@ theorem plain_bool_relex : Statement_plain_bool_relex := by
   · intro h
     have hl : lex.map toLowerAscii = lex := by
       rcases lexBoolean_cases h with rfl | rfl <;> decide
-    simp [writeNum, plainToken, hl, plainChoice, tokenOk, h, hn]
+    simp [writeNum, pinnedExp, guarded, plainToken, hl, plainChoice, tokenOk, h, hn]
   · intro t _ hbad
     rcases hbad with hb | hb
-    · simp [writeNum, plainChoice, tokenOk, hb]
-    · simp [writeNum, plainChoice, hb]
+    · simp [writeNum, pinnedExp, guarded, plainChoice, tokenOk, hb]
+    · simp [writeNum, pinnedExp, guarded, plainChoice, hb]
 
 /-- Regression witness for finding C03-F1 (the pre-fix writer used `"%e"` output unchecked): with the token
     CPython prints for 1.23456789 and the lexical form a reader builds from it, the literal does not read back. -/
